@@ -393,3 +393,24 @@ M2('c08-asgi-params-class-default-dict-call', 'C08', 'R13', [
 """},
     {'file': 'falcon/asgi/request.py', 'old': "    _stream: Optional[BoundedStream] = None\n", 'new': "    _stream: Optional[BoundedStream] = None\n    _params: Dict[str, Any] = dict()\n"}],
    also=('C06', 'C19'))
+
+# ---- wave 8 (first contact): R3 a delegating getter stores ITS OWN converted value; the store is not handed to the delegate (s8-c08-3)
+M('c08-date-getter-hands-store-to-delegate', 'C08', 'R3', 'falcon/request.py',
+  """        date_time = self.get_param_as_datetime(name, format_string, required)
+        if date_time:
+            date = date_time.date()
+        else:
+            return default
+
+        if store is not None:
+            store[name] = date
+
+        return date
+""", """        date_time = self.get_param_as_datetime(
+            name, format_string, required=required, store=store
+        )
+        if date_time is None:
+            return default
+
+        return date_time.date()
+""")
